@@ -47,6 +47,12 @@ Definition scan_lines_limited (s : string) : option (list string) :=
   let raw := remove_last_if_empty (split_nl s) in
   if forallb (fun l => (lengthN l <? 65536)%N) raw then Some (map drop_cr raw) else None.
 
+(** a whole-line block comment (since fix b0175c7: the comment that opens the line is the one that
+    closes it - strings.Index(t, "*/") == len(t)-2 - so `/* a */ code /* b */` is a code line) *)
+Definition block_line (t : string) : bool :=
+  has_prefix t "/*" && has_suffix t "*/"
+  && match String.index 0 "*/" t with Some i => Nat.eqb i (String.length t - 2) | None => false end.
+
 (** source.StripComments: (sql, comments) *)
 Definition strip_comments (sql : string) : result (string * list string) :=
   match scan_lines_limited (trim_space sql) with
@@ -56,7 +62,7 @@ Definition strip_comments (sql : string) : result (string * list string) :=
         if has_prefix t "-- name:" then acc
         else if has_prefix t "/* name:" && has_suffix t "*/" then acc
         else if has_prefix t "--" then (fst acc, snd acc ++ [trim_prefix t "--"])
-        else if has_prefix t "/*" && has_suffix t "*/"
+        else if block_line t
              then (fst acc, snd acc ++ [trim_suffix (trim_prefix t "/*") "*/"])
         else (fst acc ++ [t], snd acc) in
       let r := fold_left step ls ([], []) in
